@@ -136,6 +136,12 @@ def run_gm(case):
     if g[0] == "box":
         x0 = np.minimum(np.maximum(x0, g[1]), g[2])          # F(x0) finite
     x = x0.copy()
+    lay = case["rs"][-1] % 3
+    if lay == 1:                      # caller's x is a strided view; step is a NumPy scalar
+        big = np.zeros(2 * n, dt)
+        big[::2] = x
+        x = big[::2]
+        alpha = np.float64(alpha)
     gradf = lambda v: M.conj().T @ (M @ v - y)               # noqa: E731
     alg = sp.alg.GradientMethod(gradf, x, alpha, proxg=sigpy_prox(g, [n]),
                                 accelerate=case["acc"], max_iter=case["iters"], tol=0)
@@ -290,6 +296,10 @@ def run_pdhg(case):
             x0 = np.minimum(np.maximum(x0, g[1]), g[2])
     x = x0.reshape(shape_x).copy()
     u = u0.reshape(shape_u).copy()
+    if case["rs"][-1] % 3 == 1 and len(shape_x) == 1:     # strided views as caller arrays
+        bx, bu = np.zeros(2 * n, dt), np.zeros(2 * m, dt)
+        bx[::2], bu[::2] = x, u
+        x, u = bx[::2], bu[::2]
     gp = gd = 0
     if case["gamma"] == "primal":
         gp = g[1] if g[0] == "l2" else 0.3
